@@ -108,7 +108,49 @@ class RealGrammar:
         self.__init__(st['spec'])
 
 
+class ModGrammar:
+    """picklable functional grammar over K atomic categories C0..C{K-1}, too many for an explicit table:
+    binary(Ci, Cj) = [C((a*i + b*j + c) mod K0)] when i, j < K0 and (p*i + q*j) mod m < d, else nothing; unary(Ci) =
+    [C(i+1)] when i mod u == 0 (categories from K0 on are inert).  Used to drive one parser call through hundreds of thousands of distinct rule applications."""
+
+    def __init__(self, spec):
+        from depccg.cat import Category
+        from depccg.types import CombinatorResult
+        self.spec = spec
+        K = spec['K']
+        self.cats = [Category.parse(f'C{i}') for i in range(K)]
+        self.index = {c: i for i, c in enumerate(self.cats)}
+        self.CR = CombinatorResult
+        self.calls = 0
+
+    def binary(self, x, y):
+        self.calls += 1
+        sp = self.spec
+        i, j = self.index[x], self.index[y]
+        K0 = sp.get('K0', sp['K'])          # categories from K0 on are inert: no rule combines them
+        if i >= K0 or j >= K0 or (sp['p'] * i + sp['q'] * j) % sp['m'] >= sp['d']:
+            return []
+        r = (sp['a'] * i + sp['b'] * j + sp['c']) % K0
+        return [self.CR(self.cats[r], 'l0', 's0', bool(sp['head_left']))]
+
+    def unary(self, x):
+        self.calls += 1
+        sp = self.spec
+        i = self.index[x]
+        if sp['u'] and i % sp['u'] == 0 and i + 1 < sp.get('K0', sp['K']):
+            return [self.CR(self.cats[i + 1], 'u0', 'U0', True)]
+        return []
+
+    def __getstate__(self):
+        return {'spec': self.spec}
+
+    def __setstate__(self, st):
+        self.__init__(st['spec'])
+
+
 def make_grammar(spec):
     if spec['kind'] == 'table':
         return TableGrammar(spec)
+    if spec['kind'] == 'mod':
+        return ModGrammar(spec)
     return RealGrammar(spec)
